@@ -100,6 +100,11 @@ pub trait Space: Sync + Send {
     fn chunk_hint(&self) -> u64 {
         0
     }
+    /// Re-execute exactly the failing part of case `idx` described by a violation's `detail`
+    /// (default: the whole case again).
+    fn replay(&self, idx: u64, _detail: &str, out: &mut Outcome) {
+        self.run(idx, out)
+    }
 }
 
 pub struct CheckDef {
@@ -744,13 +749,13 @@ pub fn controller_main(def: &CheckDef, tier: Tier) -> i32 {
     exit
 }
 
-pub fn replay_main(def: &CheckDef, space: usize, idx: u64) -> i32 {
+pub fn replay_main(def: &CheckDef, space: usize, idx: u64, detail: &str) -> i32 {
     alloc::install_panic_hook();
     let mut out = Outcome::default();
     out.cur = idx;
     out.evals = 1;
     println!("case: {}", serde_json::to_string_pretty(&def.spaces[space].describe(idx)).unwrap());
-    def.spaces[space].run(idx, &mut out);
+    def.spaces[space].replay(idx, detail, &mut out);
     if out.violations.is_empty() {
         println!("replay: no violation");
         0
